@@ -816,6 +816,11 @@ func (x *fnExec) execReturn(st *State, r *ssa.Return) {
 		g := x.evalClause(st, c, e)
 		x.emit(st, fmt.Sprintf("ensures.%s#%d", e.Label, ord), "ensures", e.Label, e.Props, g, e.Src)
 	}
+	// atreturn: obligations at every return that may mention local variables (not visible to callers)
+	for _, e := range x.c.AtReturn {
+		g := x.evalClause(st, c, e)
+		x.emit(st, fmt.Sprintf("atreturn.%s#%d", e.Label, ord), "atreturn", e.Label, e.Props, g, "at return: "+e.Src)
+	}
 	x.checkFrame(st, ord)
 }
 
@@ -886,7 +891,7 @@ func (x *fnExec) frameGoal(fs *frameSpec, name, cur string) (string, bool) {
 // checkFrame: every heap variable changed on this path must be covered by the modifies clause.
 func (x *fnExec) checkFrame(st *State, ord int) {
 	fs := x.frameSpecOf(st)
-	if fs.all {
+	if fs.all || x.c.TrustedFrame {
 		return
 	}
 	if st.unknownHavoc {
